@@ -12,10 +12,10 @@ Inductive pmode := Required | Optional | NoneAllowed.
 Record opts := { o_mode : pmode; o_multi : bool; o_allow_tp : bool;
                  o_update : bool (* UpdateParam <> "" *) }.
 Inductive rkind := RErr | ROther.      (* result is the built-in error / anything else *)
-Record fn := { accessible : bool; is_func : bool; type_params : bool;
+Record fn := { accessible : bool; is_func : bool; variadic : bool; type_params : bool;
                params : list param; results : list rkind }.
 
-Inductive err := EExported | ENotFunc | EUpdateSig | EUpdateArgMissing | EReturns | ESecondNotError
+Inductive err := EExported | ENotFunc | EVariadic | EUpdateSig | EUpdateArgMissing | EReturns | ESecondNotError
                | EGeneric | ENoSourceAllowed | ENeedSource | EOneSource.
 Record def := { uses : list use; ret_err : bool; update : bool }.
 
@@ -44,6 +44,7 @@ Fixpoint run (rs : list rkind) (ps : list param) (s : st) : err + st :=
 Definition classify (o : opts) (f : fn) : err + def :=
   if negb (accessible f) then inl EExported else
   if negb (is_func f) then inl ENotFunc else
+  if variadic f then inl EVariadic else
   match run (results f) (params f) st0 with
   | inl e => inl e
   | inr s =>
@@ -96,7 +97,7 @@ Definition returns_error (upd : bool) (rs : list rkind) : bool :=
   else match rs with [_; RErr] => true | _ => false end.
 
 Definition valid (o : opts) (f : fn) : bool :=
-  accessible f && is_func f
+  accessible f && is_func f && negb (variadic f)
   && (if has_upd (params f) then results_ok_update (results f)
       else negb (o_update o) && results_ok_plain (results f))
   && negb (type_params f && negb (o_allow_tp o))
@@ -117,7 +118,7 @@ Definition use_eqb (a b : use) : bool :=
   match a, b with UInterface, UInterface | UTarget, UTarget | UContext, UContext | USource, USource | UMulti, UMulti => true | _, _ => false end.
 Definition err_eqb (a b : err) : bool :=
   match a, b with
-  | EExported, EExported | ENotFunc, ENotFunc | EUpdateSig, EUpdateSig | EUpdateArgMissing, EUpdateArgMissing
+  | EExported, EExported | ENotFunc, ENotFunc | EVariadic, EVariadic | EUpdateSig, EUpdateSig | EUpdateArgMissing, EUpdateArgMissing
   | EReturns, EReturns | ESecondNotError, ESecondNotError | EGeneric, EGeneric | ENoSourceAllowed, ENoSourceAllowed
   | ENeedSource, ENeedSource | EOneSource, EOneSource => true
   | _, _ => false
